@@ -134,6 +134,12 @@ func c05(c *Ctx) {
 				if f, isC := core.ConstFloat(pair[1]); isC && core.Derives(pair[0], func(v ssa.Value) bool { return m.isLoadField(v, m.capField) }, core.DeriveOpts{}) {
 					frac = f
 					expect = bo
+				} else if !isC && expect == nil && core.Derives(pair[0], func(v ssa.Value) bool { return m.isLoadField(v, m.capField) }, core.DeriveOpts{}) {
+					// the fraction as a setting: every value it can take is within [0.05, 1]
+					if rg := p.RangeOf(pair[1], bo.Block()); rg.HasLo && rg.Lo >= 0.05 && rg.HasHi && rg.Hi <= 1 {
+						frac = rg.Lo
+						expect = bo
+					}
 				}
 			}
 		}
@@ -305,6 +311,7 @@ func c05(c *Ctx) {
 		})
 		r.Check(okRec, "R5.symmetry", core.FuncName(m.put)+" persisted-record", p.Pos(adds[0].Pos()), "the size record written by Put holds the counter value after the add", "the size record written by Put is not the updated counter")
 	}
+	errorsExamined(c, "R6.errors-examined", "content store", []string{"storage/pebble"}, "(*storage/pebble.ContentStorage).", "storage/pebble.NewStorage")
 }
 
 func isSizeLoad(m *storeModel, v ssa.Value) bool {
